@@ -1,1 +1,91 @@
-import EventppVerif.CL.Machine
+import EventppVerif.CL.Sim
+/-
+  Property C02 — callbacks may mutate or re-invoke the list that is invoking them, safely.
+
+  Model: the pointer-level machine `MCfg` (CL/Model.lean, CL/Machine.lean): `doForEachIf` exactly
+  as written (loop variable, captured generation, guard `counter != 0 && captured >= counter`,
+  `node = node->next` read *after* the callback returned), `doFreeNode` keeping the removed
+  node's links, handles of removed nodes inert.
+  Spec: the list machine `SCfg`: an invocation iterates over a snapshot and skips what is no
+  longer in the list — the statement of the property.
+
+  The theorems quantify over every behaviour table `beh` (what every callback does on every call:
+  any program of list operations and nested invocations, chosen from the results seen so far),
+  every number of steps, every pair of related states (in particular every reachable one) and
+  every world of lists (a dispatcher's per-event lists).
+-/
+namespace Evp
+
+/-- The empty worlds are related. -/
+theorem C02_init (k : Nat) (p : Prog) :
+    Sim { nlists := k, stack := [.prog p] } { nlists := k, stack := [.prog p] } := by
+  refine ⟨rfl, rfl, rfl, ?_, ?_⟩
+  · intro l
+    have : (({} : Store CL) l) = ({} : CL) := Store.empty_get l
+    show Rep (({} : Store CL) l) (({} : Store SList) l) 0
+    rw [this]
+    have h2 : (({} : Store SList) l) = ([] : SList) := Store.empty_get l
+    rw [h2]
+    exact Rep.empty 0
+  · exact StackSim.cons (FrameSim.prog p) StackSim.nil
+
+/-- **C02 (simulation).** For every behaviour of the callbacks and every number of steps, as long
+    as no generation counter wraps during those steps (the wrap is C19), the pointer-level Model
+    and the Spec stay in lock-step: same event trace (every callback call with its list, handle,
+    callback, argument, and the result of every operation at every nesting depth), same
+    halted/not-halted outcome, related final states. -/
+theorem C02_simulation (beh : Beh) (n : Nat) (m : MCfg) (s : SCfg) (h : Sim m s)
+    (nowrap : (MCfg.runN beh n m).1.wraps = m.wraps) :
+    Sim (MCfg.runN beh n m).1 (SCfg.runN beh n s).1 ∧
+    (MCfg.runN beh n m).1.trace = (SCfg.runN beh n s).1.trace ∧
+    (MCfg.runN beh n m).2 = (SCfg.runN beh n s).2 := by
+  have := sim_runN beh n h nowrap
+  exact ⟨this.1, this.1.trace, this.2⟩
+
+/-- **C02 (final content).** In related states the Model's live chain of every list, read through
+    `head`/`next`, is the Spec list: "when the outermost invocation returns the list holds exactly
+    what the same operations would have produced". -/
+theorem C02_content {m : MCfg} {s : SCfg} (h : Sim m s) (l : Nat) :
+    chainOf (m.lists l).heap (m.nextId + 1) (m.lists l).head = (s.lists l).ids ∧
+    ∀ e ∈ s.lists l, ((m.lists l).heap e.id).cb = e.cb := by
+  have r := h.rep l
+  refine ⟨?_, r.cbs⟩
+  apply chainOf_seg r.wf.fwd
+  have := nodup_lt_length _ _ r.wf.nodup r.wf.lt
+  omega
+
+/-- **C02 (memory safety of the model).** No operation of any run dereferences a null pointer
+    (the model's `ub` flag), wrap or not, and every traversal's pointer walks stay inside allocated
+    nodes (part of `MInv`, see `minv_runN`). -/
+theorem C02_no_ub (beh : Beh) (n : Nat) (m : MCfg) (h : MInv m) (l : Nat) :
+    ((MCfg.runN beh n m).1.lists l).ub = false :=
+  minv_no_ub (minv_runN beh n h) l
+
+/-- Handles of removed callbacks are inert, stated on the Spec (which the Model follows):
+    `remove` returns `false` and changes nothing, `insert` before it appends, `ownsHandle` is
+    `false`. -/
+theorem C02_inert (L : SList) (h : Hd) (hn : L.present h = false) (id : Hd) (cb : Cb) :
+    L.remove h = (L, false) ∧ L.insert id cb h = L.append id cb := by
+  simp [SList.remove, SList.insert, hn]
+
+/-- Non-vacuity: the D1 script (a callback removes itself, inserts before its successor, removes
+    itself again, asks ownsHandle, inserts before itself) — Model and Spec computed by `decide`
+    agree on the trace and on the final content `A X C Y`. -/
+def d1Beh : Beh := fun c nth =>
+  if c.cb = 2 ∧ nth = 0 then
+    .op (.remove 0 1) fun _ => .op (.insert 0 9 2) fun _ => .op (.remove 0 1) fun _ =>
+    .op (.owns 0 1) fun _ => .op (.insert 0 8 1) fun _ => .ret true
+  else .ret true
+
+def d1Prog : Prog :=
+  .op (.append 0 1) fun _ => .op (.append 0 2) fun _ => .op (.append 0 3) fun _ =>
+  .op (.invoke 0 7) fun _ => .ret true
+
+example :
+    let m := (MCfg.runN d1Beh 40 { stack := [.prog d1Prog] }).1
+    let s := (SCfg.runN d1Beh 40 { stack := [.prog d1Prog] }).1
+    m.trace = s.trace ∧ (s.lists 0).ids = [0, 3, 2, 4] ∧
+      chainOf (m.lists 0).heap 10 (m.lists 0).head = [0, 3, 2, 4] ∧ m.wraps = 0 := by
+  decide +kernel
+
+end Evp
